@@ -56,9 +56,10 @@ func DiskTerms(evs []*scorch.VerifEvent, n *strace.Namer, ver strace.VersionOf) 
 	mergedWritten := map[uint64]bool{}
 	// while a persist_prepared waits for the event that published its epoch, everything that
 	// follows it on other goroutines (commit, acks, purges, ...) waits behind it, in order
-	var heldAfter uint64
 	var held []ditem
 	holding := false
+	var holdDone func() bool       // true once the awaited event has been placed
+	knownSids := map[uint64]bool{} // segment ids allocated by events placed so far
 	push := func(it ditem) {
 		if holding {
 			held = append(held, it)
@@ -117,7 +118,10 @@ func DiskTerms(evs []*scorch.VerifEvent, n *strace.Namer, ver strace.VersionOf) 
 			published[e.Epoch] = true
 			stats[e.Kind]++
 			flush()
-			if holding && published[heldAfter] {
+			if e.Kind == "introduce" && e.NewSegID != 0 {
+				knownSids[e.NewSegID] = true
+			}
+			if holding && holdDone() {
 				out = append(out, held...)
 				held = nil
 				holding = false
@@ -130,6 +134,7 @@ func DiskTerms(evs []*scorch.VerifEvent, n *strace.Namer, ver strace.VersionOf) 
 			// from TMergeStart, so their XFile events follow it (a merged file whose merge is never
 			// handed to the introducer is garbage the model need not know about)
 			for _, task := range e.Tasks {
+				knownSids[task.New] = true
 				if mergedWritten[task.New] {
 					it.files = append(it.files, task.New)
 					delete(mergedWritten, task.New)
@@ -157,8 +162,9 @@ func DiskTerms(evs []*scorch.VerifEvent, n *strace.Namer, ver strace.VersionOf) 
 			if holding || hasCreator(e.Epoch) || (haveInitial && e.Epoch == initialEpoch) {
 				push(it)
 			} else {
+				ep := e.Epoch
 				holding = true
-				heldAfter = e.Epoch
+				holdDone = func() bool { return published[ep] }
 				held = append(held, it)
 			}
 		case "copy_start":
@@ -174,8 +180,18 @@ func DiskTerms(evs []*scorch.VerifEvent, n *strace.Namer, ver strace.VersionOf) 
 			switch e.Name {
 			case "segfile_written":
 				if len(e.Args) > 0 {
-					push(ditem{term: cf.App("XFile", cf.U(e.Args[0]))})
+					sid := e.Args[0]
+					it := ditem{term: cf.App("XFile", cf.U(sid))}
 					stats["file"]++
+					if holding || knownSids[sid] {
+						push(it)
+					} else {
+						// the persister wrote the file of a segment whose introduction has not been
+						// logged yet (the introducer's hook runs just after the root swap)
+						holding = true
+						holdDone = func() bool { return knownSids[sid] }
+						held = append(held, it)
+					}
 				}
 			case "memmerge_written", "filemerge_written":
 				if len(e.Args) > 0 {
